@@ -12,7 +12,7 @@ PROP = dict(
           "safety; libFuzzer -timeout=10 = termination. "
           "Part B (rapidcheck, harness/C06_decode.cpp): json = text-level generator of valid RFC 8259 documents together with their value "
           "(insignificant whitespace from the 4 legal characters at every slot; every escape form incl. \\/ and \\uXXXX in both hex cases, "
-          "surrogate pairs incl. U+10000/U+10FFFF, raw multi-byte UTF-8; numbers in every grammatical shape: -0, fractions up to 25 digits, "
+          "one BMP escape in four an edge of a UTF-8 length class or of the surrogate block (7f 80 81 ff 100 7fe 7ff 800 801 fff 1000 d7ff e000 fffd fffe ffff), surrogate pairs incl. U+10000/U+10FFFF, raw multi-byte UTF-8; numbers in every grammatical shape: -0, fractions up to 25 digits, "
           "e/E with +/-/no sign, exponents to 400, 8-30 digit integers, the int32 edges; duplicate and empty names, '/' in names; empty "
           "containers; top-level scalars; up to ~20 KB); the generator's value must equal the independent parser's (ref_json.h) or the run "
           "is an infrastructure error; checks: (a) accepted and equal to the reference value (numbers numerically), (b) EVERY proper "
